@@ -20,6 +20,18 @@ Streams
                O4 a malformed file (decided by an independent validator of the unit
                   structure) is not registered,
                O5 ... and is reported.
+               O1 also covers the identifiers (page names, `name~N`) of the valid files'
+                  entities, asked for in project order after Project() returned, when every
+                  additional file was rejected.
+             The additional file is also a *stale copy* of one of the valid files (same unit
+             names, corrupted, usually read before the original), and a *laid-out* source
+             (doc comments of all four kinds before / after / beside statements, continuation
+             lines, `;`, blank and comment lines) cut after every kind of physical line.
+  reader   : every laid-out file: real `FortranReader` (2 s watchdog) == reader model `readAll`
+             (C02) on the same lines, and the statements among the items are the expected
+             prefix of the statement sequence.
+  names    : the identifiers requested from the process-wide NameSelector while Project()
+             runs (logged by a wrapper) == the model's `projectNames`.
   e2e      : a few complete runs (ford.main): the generated site with a rejected bad file is
              byte-identical to the site without it.
 """
@@ -531,6 +543,137 @@ def text_of(stmts, rng=None):
 
 
 # ----------------------------------------------------------------------------------------
+# laid-out sources: the same statements with everything around them that the reader removes,
+# moves or joins (default marks: `!!` doc, `!>` pre-doc, `!*` alt doc, `!|` alt pre-doc)
+# ----------------------------------------------------------------------------------------
+WORDS = ["alpha", "beta: gamma", "see [[x]]", "x < y", "1. item", "@note n", "delta"]
+MARKS = ("!", ">", "*", "|")
+
+
+def layout(rng, stmts):
+    """-> (lines, ends, tags): the physical lines, for every statement the index of the physical
+    line that completes it, and for every physical line what it is (its reader state when the
+    file ends right after it)."""
+    lines, tags, ends = [], [], []
+
+    def put(text, tag, ind=None):
+        lines.append((rng.choice(["", "  ", "    "]) if ind is None else ind) + text)
+        tags.append(tag)
+
+    i, n = 0, len(stmts)
+    while i < n:
+        text = stmts[i]["text"]
+        x = rng.random()
+        if x < 0.22:
+            for _ in range(rng.randint(1, 2)):
+                put("!> " + rng.choice(WORDS), "predoc")
+        elif x < 0.32:
+            put("!| " + rng.choice(WORDS), "predoc-alt")
+            for _ in range(rng.randint(0, 2)):
+                put("! " + rng.choice(WORDS), "predoc-alt")
+        elif x < 0.38:
+            put(rng.choice(["", "   ", "! plain comment", "#define X 1"]), "blank", ind="")
+        y = rng.random()
+        spaces = [j for j, ch in enumerate(text) if ch == " " and 0 < j < len(text) - 1
+                  and text[j - 1] != " " and text[j + 1] != " "]
+        if y < 0.2 and spaces:
+            j = rng.choice(spaces)
+            put(text[:j] + rng.choice([" &", " &", " &   ! why not", " &"]), "continued")
+            if rng.random() < 0.2:
+                put(rng.choice(["", "! in between"]), "continued", ind="")
+            put(rng.choice(["", "&"]) + text[j + 1:], "stmt")
+            ends.append(len(lines) - 1)
+        elif y < 0.27 and i + 1 < n:
+            put(text + rng.choice(["; ", ";", " ; "]) + stmts[i + 1]["text"], "stmt")
+            ends += [len(lines) - 1, len(lines) - 1]
+            i += 1
+        elif y < 0.34:
+            put(text + "  !! " + rng.choice(WORDS), "stmt")
+            ends.append(len(lines) - 1)
+        else:
+            put(text, "stmt")
+            ends.append(len(lines) - 1)
+        z = rng.random()
+        if z < 0.2:
+            for _ in range(rng.randint(1, 2)):
+                put("!! " + rng.choice(WORDS), "doc")
+            if rng.random() < 0.3:
+                put("", "doc-blank", ind="")
+        elif z < 0.27:
+            put("!* " + rng.choice(WORDS), "doc-alt")
+            for _ in range(rng.randint(0, 2)):
+                put("! " + rng.choice(WORDS), "doc-alt")
+        elif z < 0.32:
+            put("", "blank", ind="")
+        i += 1
+    return lines, ends, tags
+
+
+def layout_cuts(rng, stmts, budget, label):
+    """Truncations of a laid-out source after physical lines of every kind: bad-file sources
+    whose `stmts` are the statements that are complete in the kept lines."""
+    lines, ends, tags = layout(rng, stmts)
+    by_tag: dict[str, list[int]] = {}
+    for k in range(1, len(lines) + 1):
+        by_tag.setdefault(tags[k - 1], []).append(k)
+    cuts = []
+    groups = [rng.sample(v, len(v)) for _, v in sorted(by_tag.items())]
+    while len(cuts) < budget - 1 and any(groups):     # round robin over the kinds of last line
+        for g in groups:
+            if g and len(cuts) < budget - 1:
+                cuts.append(g.pop())
+    out = []
+    for k in sorted(set(cuts)) + [len(lines)]:
+        nst = sum(1 for e in ends if e < k)
+        tag = tags[k - 1] if k < len(lines) else "whole"
+        out.append({"form": "stmts", "stmts": stmts[:nst], "how": f"{label}:{tag}@{k}",
+                    "lines": lines[:k], "text": "".join(l + "\n" for l in lines[:k]),
+                    "partial": tag == "continued", "cut_state": tag})
+    return out
+
+
+CUT_STATE = {
+    "predoc": "inside a `!>` block (the statement it documents never comes)",
+    "predoc-alt": "inside a `!|` block (the statement it documents never comes)",
+    "continued": "inside a continued statement (dangling `&`)",
+    "doc": "after a `!!` doc line", "doc-blank": "with a blank line after a `!!` doc line",
+    "doc-alt": "inside a `!*` block", "blank": "with a blank / comment / preprocessor line",
+    "stmt": "after a complete statement", "whole": "where the laid-out source ends",
+}
+
+
+class ReaderHang(BaseException):
+    pass
+
+
+def real_read(path, watchdog=2):
+    """list(FortranReader(path)) with the default marks -> ("ok", items) | ("err", kind) | ("hang", None)"""
+    from ford.reader import FortranReader
+
+    def on_alarm(signum, frame):
+        raise ReaderHang()
+
+    old = signal.signal(signal.SIGALRM, on_alarm)
+    signal.alarm(watchdog)
+    try:
+        try:
+            with contextlib.redirect_stdout(io.StringIO()):
+                return ("ok", list(FortranReader(str(path), *MARKS)))
+        except ReaderHang:
+            return ("hang", None)
+        except Exception as e:  # noqa
+            msg = str(e)
+            for pat, kind in (("Preceding documentation lines", "predoc-inline"), ("Preceding alternate documentation", "predoc-alt-inline"),
+                              ("Alternate documentation", "alt-inline"), ("Can not start a new line", "amp-start")):
+                if pat in msg:
+                    return ("err", kind)
+            return ("err", f"{type(e).__name__}:{msg[:60]}")
+    finally:
+        signal.alarm(0)
+        signal.signal(signal.SIGALRM, old)
+
+
+# ----------------------------------------------------------------------------------------
 # the real code
 # ----------------------------------------------------------------------------------------
 WALK = ["modules", "submodules", "programs", "functions", "subroutines", "modprocedures", "types",
@@ -544,6 +687,21 @@ def paths_of(ent, prefix=""):
             e = f"{attr}:{getattr(c, 'name', None)}"
             out.append(prefix + e)
             out += paths_of(c, prefix + e + "/")
+    return out
+
+
+def idents_of(ent, prefix=""):
+    """path=identifier of every entity below `ent`, asking in the order of the walk"""
+    out = []
+    for attr in WALK:
+        for c in getattr(ent, attr, None) or []:
+            e = f"{attr}:{getattr(c, 'name', None)}"
+            try:
+                ident = c.ident
+            except Exception as exc:  # noqa
+                ident = f"!{type(exc).__name__}"
+            out.append(f"{prefix}{e}={ident}")
+            out += idents_of(c, prefix + e + "/")
     return out
 
 
@@ -611,13 +769,16 @@ class Real:
         self.fp, self.sf, self.Settings = fp, sf, ProjectSettings
         self.root = root
         self.n = 0
+        self.hangs = 0
 
-    def run(self, files: list[tuple[str, object]], dbg=True, force=False, watchdog=10):
+    def run(self, files: list[tuple[str, object]], dbg=True, force=False, watchdog=None):
         """files: ordered (role name, text|bytes).  Returns an observation dict in which every
         file is called by its role name again; obs["read_order"] is the order in which the
         implementation really started the per-file constructor."""
         fp, sf = self.fp, self.sf
         self.n += 1
+        if watchdog is None:
+            watchdog = 10 if self.hangs == 0 else 3     # once something hung the run fails anyway
         d = self.root / f"p{self.n % 8}"
         if d.exists():
             for p in d.iterdir():
@@ -645,7 +806,26 @@ class Real:
         def on_alarm(signum, frame):
             raise Hang()
 
-        sf.namelist = sf.NameSelector()
+        # the process-wide NameSelector: a fresh one per run, which logs the first request for
+        # every entity as long as Project() is running
+        reserved, logging_on, seen_items = [], [True], set()
+
+        class LoggingSelector(sf.NameSelector):
+            def get_name(self_, item):
+                if logging_on[0] and id(item) not in seen_items:
+                    seen_items.add(id(item))
+                    try:
+                        owner = Path(item.source_file.path).name
+                    except Exception:  # noqa
+                        owner = "?"
+                    try:
+                        key = f"{item.get_dir()}/{str(item.name).lower()}"
+                    except Exception:  # noqa
+                        key = "?"
+                    reserved.append((key, owner))
+                return super().get_name(item)
+
+        sf.namelist = LoggingSelector()
         buf = io.StringIO()
         cwd = os.getcwd()
         obs = {"hang": False, "escaped": None}
@@ -668,6 +848,7 @@ class Real:
         except Hang:
             obs["hang"] = True
         finally:
+            logging_on[0] = False
             signal.alarm(0)
             signal.signal(signal.SIGALRM, old_handler)
             fp.find_all_files, fp.warn, fp.Project._fortran_file = orig_find, orig_warn, orig_ff
@@ -681,6 +862,10 @@ class Real:
         warns = [unrole(w) for w in warns]
         excs = {role.get(k, k): v for k, v in excs.items()}
         obs["read_order"] = [role.get(n_, n_) for n_ in read_order]
+        obs["reserved"] = [k for k, _ in reserved]
+        obs["reserved_owner"] = [f"{k}@{role.get(o, o)}" for k, o in reserved]
+        if obs["hang"]:
+            self.hangs += 1
         reports: dict[str, list[str]] = {}
         unnamed = 0
         for m in re.finditer(r"^ERROR in file '([^']*)': (.*)$", out, re.M):
@@ -706,6 +891,11 @@ class Real:
                 "programs": [m.name for m in proj.programs],
                 "blockdata": [m.name for m in proj.blockdata],
             }
+            obs["lists_owner"] = {
+                lst: [role.get(Path(e.source_file.path).name, "?") for e in getattr(proj, lst)]
+                for lst in ("modules", "submodules", "procedures", "programs", "blockdata")}
+            # the identifiers (page names) of all entities, asked for in project order
+            obs["idents"] = {role.get(f.name, f.name): idents_of(f) for f in proj.files}
             # every registered entity belongs to a registered file
             regfiles = set(obs["files"])
             stray = []
@@ -835,7 +1025,7 @@ def make_bad(rng, how, stmts):
 def src_text(src, rng):
     if src["form"] == "undecodable":
         return src["bytes"]
-    if src["form"] == "reader":
+    if src["form"] == "reader" or "text" in src:
         return src["text"]
     return text_of(src["stmts"], rng)
 
@@ -855,6 +1045,8 @@ def run(tier: str, seed: int, replay: str | None = None) -> int:
     per_base = 60 if quick else 200
     n_random = 720 if quick else 5000
     n_e2e = 12 if quick else 60
+    n_cuts = 14 if quick else 40          # truncations of each laid-out source
+    per_stale = 16 if quick else 60       # corruptions of a stale copy of a valid file
     t_start = time.time()
 
     ev_rows, bad_rows = row_stream(ford, drv, rep)
@@ -864,7 +1056,9 @@ def run(tier: str, seed: int, replay: str | None = None) -> int:
     err_hist: dict[str, int] = {}
     rep_hist: dict[str, int] = {}
     pos_hist: dict[str, int] = {}
+    cut_hist: dict[str, int] = {}
     distinct = set()
+    n_stale = n_stale_before = n_ident_checks = n_names_checks = 0
     samples = []
     n_cases = n_corr_bad = n_oracle_fail = n_valid_bad = 0
 
@@ -878,6 +1072,7 @@ def run(tier: str, seed: int, replay: str | None = None) -> int:
         repaired = probe.get("escaped") is None and "bad.f90" not in probe.get("files", ["bad.f90"])
         # ------------------------------------------------------------ build all cases
         cases = []
+        reader_hangs = n_reader = 0
         for gi in range(n_sets):
             ngood = rng.randint(1, 3)
             goods = []
@@ -905,9 +1100,54 @@ def run(tier: str, seed: int, replay: str | None = None) -> int:
             bads.append(make_bad(rng, "two-programs", noprog + p1 + p2))
             bads.append(make_bad(rng, "two-programs", p1 + noprog + p2))
             bads.append(make_bad(rng, "two-programs", p1 + p2 + gq.module()))
+            # laid-out sources (doc comments, continuation lines, ...) cut after every kind of line
+            bads += layout_cuts(rng, base, n_cuts, "layout")
+            # a stale copy of one of the valid files (same unit names), corrupted
+            sj = rng.randrange(ngood)
+            stale_base = goods[sj][1]["stmts"]
+            stale = [make_bad(rng, "stale-" + how, st)
+                     for how, st in corruptions(rng, stale_base, other, f"b{gi}s", per_stale)]
+            stale += layout_cuts(rng, stale_base, max(4, n_cuts // 2), "stale-layout")
+            for b_ in stale:
+                b_["stale_of"] = sj
+            bads += stale
+            # every laid-out file first goes through the reader alone (2 s watchdog): a file on
+            # which the reader does not come back is a failing input by itself; at most two of
+            # them go on into the project stream, and after five the layouts are dropped
+            kept = []
+            for bad in bads:
+                if "lines" in bad:
+                    if reader_hangs >= 5:
+                        continue
+                    pth = root / "reader_probe.f90"
+                    pth.write_text(bad["text"])
+                    bad["real_items"] = real_read(pth)
+                    n_reader += 1
+                    if bad["real_items"][0] == "hang":
+                        reader_hangs += 1
+                        smallest = None
+                        if reader_hangs == 1:      # the shortest tail of the file on which it still hangs
+                            j = 1
+                            while j < len(bad["lines"]) and smallest is None:
+                                pth.write_text("".join(l + "\n" for l in bad["lines"][-j:]))
+                                if real_read(pth)[0] == "hang":
+                                    smallest = bad["lines"][-j:]
+                                j += 1 if j < 4 else j
+                        rep.failing_input({"stream": "reader", "how": bad["how"],
+                                           "smallest_tail_that_hangs": smallest,
+                                           "files": [{"name": "bad.f90", "text": bad["text"]}],
+                                           "why": ["O2: FortranReader did not finish reading the file within 2 s (watchdog); "
+                                                   "the file ends " + CUT_STATE.get(bad["cut_state"], bad["cut_state"])]}, None)
+                        if reader_hangs > 2:
+                            continue
+                kept.append(bad)
+            bads = kept
             for bi, bad in enumerate(bads):
                 pos = rng.choice(["first", "middle", "last"]) if ngood > 1 else rng.choice(["first", "last"])
                 k = {"first": 0, "last": ngood, "middle": rng.randint(1, max(1, ngood - 1))}[pos]
+                if "stale_of" in bad and rng.random() < 0.7:      # read before the file it is a copy of
+                    k = rng.randint(0, bad["stale_of"])
+                    pos = "first" if k == 0 else "middle"
                 extra = []
                 if rng.random() < 0.15:
                     b2 = rng.choice(bads)
@@ -939,6 +1179,32 @@ def run(tier: str, seed: int, replay: str | None = None) -> int:
                 n_corr_bad += 1
                 rep.tie_broken("correspondence reader: the reader model (C02 readAll) does not raise on a file generated as a reader error",
                                {"stream": "reader", "lines": c["bad"]["text"].splitlines(), "model": r[:3]})
+        # laid-out files: reader model == real reader; statements among the items == expected prefix
+        lbads = {}
+        for c in cases:
+            for b_ in [c["bad"]] + [b2 for _, b2 in c["extra"]]:
+                if "lines" in b_ and id(b_) not in lbads:
+                    lbads[id(b_)] = b_
+        lbads = list(lbads.values())
+        for b_, r in zip(lbads, drv.batch([["read", *MARKS, *b_["lines"]] for b_ in lbads])):
+            bump(cut_hist, b_["cut_state"])
+            real_r = b_["real_items"]
+            model_r = ("ok", r[1:]) if r[0] == "ok" else ("err", r[1] if len(r) > 1 else "?")
+            if real_r[0] == "hang":
+                n_corr_bad += 1
+                rep.tie_broken(f"correspondence reader: FortranReader hangs on a file that ends {CUT_STATE.get(b_['cut_state'])}; the reader model stops with {len(r) - 1} items",
+                               {"stream": "reader", "lines": b_["lines"], "model": r[:6]})
+                continue
+            if (real_r[0], list(real_r[1]) if real_r[0] == "ok" else real_r[1]) != (model_r[0], list(model_r[1]) if model_r[0] == "ok" else model_r[1]):
+                n_corr_bad += 1
+                rep.tie_broken(f"correspondence reader: FortranReader gives {real_r}, the reader model {model_r}",
+                               {"stream": "reader", "lines": b_["lines"], "impl": real_r, "model": model_r})
+                continue
+            got_stmts = [x for x in r[1:] if not x.startswith("!")] if r[0] == "ok" else None
+            if got_stmts != [s_["text"] for s_ in b_["stmts"]]:
+                n_corr_bad += 1
+                rep.tie_broken("correspondence reader: the statements the reader delivers for a laid-out file are not the statements that are complete in it",
+                               {"stream": "reader", "lines": b_["lines"], "items": r[1:], "expected": [s_["text"] for s_ in b_["stmts"]]})
         ri = 0
         for c in cases:
             c["m_file"] = {}
@@ -994,10 +1260,14 @@ def run(tier: str, seed: int, replay: str | None = None) -> int:
             malformed = None
             if bad["form"] == "stmts":
                 malformed = validate(bad["stmts"])
+                if malformed is None and bad.get("partial"):
+                    malformed = "file ends inside a continued statement"
                 if malformed is None:
                     n_valid_bad += 1
-                for s in bad["stmts"]:
-                    pass
+                if "stale_of" in bad:
+                    n_stale += 1
+                    if c["k"] <= bad["stale_of"]:
+                        n_stale_before += 1
             else:
                 malformed = bad["form"]
             mo = c["m_file"]["bad.f90"]
@@ -1047,6 +1317,14 @@ def run(tier: str, seed: int, replay: str | None = None) -> int:
                         gw = sorted(n_ for n_ in obs["excs"])
                         if tie is None and mw != gw:
                             tie = f"warned files differ: implementation {gw}, model {mw}"
+                        # identifiers requested from the process-wide NameSelector while Project() ran
+                        # (a reader error hides the statements before it from the model: not compared)
+                        if tie is None and all(src["form"] != "reader" for _, src in c["files"]):
+                            n_names_checks += 1
+                            mn = split_list(mp[9][2:]) if len(mp) > 9 and mp[9].startswith("N=") else ["?"]
+                            if mn != obs["reserved"]:
+                                tie = (f"identifiers requested from the NameSelector during Project(): implementation "
+                                       f"{obs['reserved_owner']}, model {mn}")
             else:
                 mp = c["m_proj"]
                 m_abort = mp[8].split("=") if len(mp) > 8 and mp[8] else None
@@ -1070,7 +1348,7 @@ def run(tier: str, seed: int, replay: str | None = None) -> int:
             cls_needed = False
             badnames = [n_ for n_, _ in c["files"] if n_.startswith("bad")]
             if obs["hang"]:
-                why.append("O2: watchdog (10 s) expired")
+                why.append("O2: Project(settings) did not return before the watchdog (10 s; 3 s after a first hang) expired")
             elif obs["escaped"] is not None:
                 why.append(f"O2: the run aborted: {obs['escaped']!r}")
             else:
@@ -1083,16 +1361,22 @@ def run(tier: str, seed: int, replay: str | None = None) -> int:
                 if [f for f in obs["files"] if f in goodnames] != base_obs["files"]:
                     why.append("O1: order of the valid files changed")
                 rejected = [n_ for n_ in badnames if n_ not in obs["files"]]
-                # lists restricted to entities of good files must be unchanged
-                bad_ents = set()
-                for n_ in badnames:
-                    for p in obs["paths"].get(n_, []):
-                        if "/" not in p:
-                            bad_ents.add(p.split(":", 1)[1])
+                # lists restricted to entities of good files must be unchanged (by owner: a stale
+                # copy that FORD registers carries the same names as the original)
                 for lst, names in obs["lists"].items():
-                    rest = [x for x in names if x not in bad_ents]
+                    rest = [x for x, o in zip(names, obs["lists_owner"][lst]) if o not in badnames]
                     if rest != base_obs["lists"][lst]:
                         why.append(f"O1: project.{lst} restricted to the valid files changed: {rest} vs {base_obs['lists'][lst]}")
+                # identifiers (page names, URLs, anchors are built from them) of the valid files:
+                # the same as without the additional files, when all of those were rejected
+                if len(rejected) == len(badnames):
+                    n_ident_checks += 1
+                    for gname in goodnames:
+                        gi_, bi_ = obs["idents"].get(gname), base_obs["idents"].get(gname)
+                        if gi_ != bi_ and gi_ is not None and bi_ is not None:
+                            diff = [f"{a} (without the rejected file: {b_.split('=', 1)[1]})" for a, b_ in zip(gi_, bi_) if a != b_]
+                            why.append(f"O1: identifiers of the entities of {gname} changed although {rejected} "
+                                       f"was rejected: {diff[:4]}")
                 if obs["stray_entities"]:
                     why.append(f"O1: entities of unregistered files leaked into the project lists: {obs['stray_entities']}")
                 for n_ in rejected:
@@ -1132,13 +1416,21 @@ def run(tier: str, seed: int, replay: str | None = None) -> int:
         exception_histogram=dict(sorted(err_hist.items())),
         report_histogram=dict(sorted(rep_hist.items())),
         corruptions_still_valid=n_valid_bad,
+        laid_out_files_read_by_reader_and_model=n_reader,
+        laid_out_files_by_state_at_end_of_file=dict(sorted(cut_hist.items())),
+        reader_hangs=reader_hangs,
+        stale_copy_cases=n_stale,
+        stale_copy_cases_read_before_the_original=n_stale_before,
+        identifier_comparisons=n_ident_checks,
+        name_table_comparisons=n_names_checks,
         e2e_runs=n_e2e_done,
         variant=("repaired (a file with print_error reports is rejected when its constructor returns)" if repaired
                  else "asIs (print_error under dbg returns; reported files stay registered)"),
     )
     rep.assumptions += [
         "statements are rendered one per line from 33 statement kinds; the recognisers themselves (CPython re) are on the implementation side, matchRow is validated on the rows stream",
-        "the reader is not re-modelled here: reader errors and decoding errors are inputs of kind R / U (FortranReader is modelled in FordModel/Reader.lean, property C02)",
+        "the reader is not re-modelled here: reader errors and decoding errors are inputs of kind R / U (FortranReader is modelled in FordModel/Reader.lean, property C02); on the laid-out files that model is compared with the real reader, item by item",
+        "identifiers are compared as handed out when asked for in project order right after Project() returned (and in the complete runs of the e2e stream as they end up in the site)",
         "catastrophic regex backtracking is searched for only through the per-case watchdog",
     ]
     return rep.finish(lean)
@@ -1166,7 +1458,13 @@ def e2e_stream(rep, rng, cases, baselines, n, seed):
 
     picked = [c for c in cases if c["dbg"] and c.get("real_skipped") and not c["extra"]]
     rng.shuffle(picked)
+    # a share of the runs for stale copies read before their original and for laid-out sources
+    stale = [c for c in picked if "stale_of" in c["bad"] and c["k"] <= c["bad"]["stale_of"]]
+    laid = [c for c in picked if "lines" in c["bad"] and "stale_of" not in c["bad"]]
+    first = stale[: max(2, n // 3)] + laid[: max(1, n // 6)]
+    picked = first + [c for c in picked if not any(c is f for f in first)]
     done = fails = 0
+    kinds_done = {"stale copy read before the original": 0, "laid-out source": 0, "other": 0}
     base_digest = {}
     orig_find = fp.find_all_files
     unusable = set()   # good sets on which the complete pipeline fails by itself (e.g. a submodule of an absent module)
@@ -1213,6 +1511,8 @@ def e2e_stream(rep, rng, cases, baselines, n, seed):
         if c["gi"] in unusable:
             continue
         done += 1
+        kinds_done["stale copy read before the original" if any(c is f for f in stale) else
+                   "laid-out source" if "lines" in c["bad"] else "other"] += 1
         if digests[0] != digests[1]:
             fails += 1
             diff = sorted(k for k in set(digests[0]) | set(digests[1]) if digests[0].get(k) != digests[1].get(k))
@@ -1221,4 +1521,5 @@ def e2e_stream(rep, rng, cases, baselines, n, seed):
                                "why": [f"O1: generated site differs from the site without the rejected file in {diff[:8]}"],
                                "run": {k: v for k, v in digests[1].items() if k == "<run>"}}, None)
     rep.coverage["e2e_good_sets_unusable"] = len(unusable)
+    rep.coverage["e2e_runs_by_kind_of_rejected_file"] = kinds_done
     return done, fails
